@@ -32,7 +32,7 @@ static int in_arena(uintptr_t a) { return a >= (uintptr_t)arena && a < (uintptr_
  * brackets them with __start_ / __stop_ symbols) is shared memory like the arena: a lock table, a free list or a scratch object kept at file
  * scope is accessed by every thread.  Accesses to it are scheduling points; it is part of the state key, of the snapshots and of the race checks,
  * and it is put back to its initial image at the start of every execution. */
-#define STAT_MAX 4096
+#define STAT_MAX 16384
 extern char __start_libbss[] __attribute__((weak)), __stop_libbss[] __attribute__((weak)), __start_libdata[] __attribute__((weak)), __stop_libdata[] __attribute__((weak));
 extern char __start_libdrl[] __attribute__((weak)), __stop_libdrl[] __attribute__((weak)), __start_libdr[] __attribute__((weak)), __stop_libdr[] __attribute__((weak));
 static struct { uintptr_t lo, hi; size_t cum; } SR[4]; static int nsr = -1; static size_t stat_total;
@@ -41,7 +41,8 @@ static void stat_setup(void)
 {
     char *lo[4] = { __start_libbss, __start_libdata, __start_libdrl, __start_libdr }, *hi[4] = { __stop_libbss, __stop_libdata, __stop_libdrl, __stop_libdr }; int i;
     nsr = 0; stat_total = 0;
-    for (i = 0; i < 4; i++) if (lo[i] && hi[i] > lo[i] && stat_total + (size_t)(hi[i] - lo[i]) <= STAT_MAX) {
+    for (i = 0; i < 4; i++) if (lo[i] && hi[i] > lo[i]) {
+        if (stat_total + (size_t)(hi[i] - lo[i]) > STAT_MAX) { fprintf(stderr, "schedx: the library's static storage (%zu bytes and more) exceeds what the explorer tracks (%d); cannot decide\n", stat_total + (size_t)(hi[i] - lo[i]), STAT_MAX); _exit(3); }
         SR[nsr].lo = (uintptr_t)lo[i]; SR[nsr].hi = (uintptr_t)hi[i]; SR[nsr].cum = stat_total;
         memcpy(stat_init + stat_total, lo[i], (size_t)(hi[i] - lo[i])); stat_total += (size_t)(hi[i] - lo[i]); nsr++;
     }
